@@ -11,6 +11,7 @@ import (
 	"go/types"
 	"math"
 	"os"
+	"reflect"
 	"sort"
 	"strings"
 	"sync"
@@ -199,6 +200,8 @@ type pathCtx struct {
 	pools                                                map[*value][]value
 	maxDraws                                             int // harness-stated bound on dice per path (0 = none)
 	sched                                                *sched
+	modelOwned                                           uintptr // identity of the model map this path owns (may write)
+	syncMaps                                             map[*value]*syncMapState
 	schedClockDone                                       int
 	sharedWrites                                         []string
 	sharedWriteNames                                     map[string]bool
@@ -711,6 +714,28 @@ func (px *pathCtx) assume(c *Term) {
 	default:
 		px.modelOK = false
 	}
+	px.assertPC(c)
+}
+
+// pinFresh constrains a symbol that occurs in no other constraint yet to a
+// constant.  The current model stays a model after setting the symbol, so no
+// solver call is needed (paths that pin tens of thousands of generator outputs
+// would otherwise send the growing path condition to the solver each time).
+func (px *pathCtx) pinFresh(sym *Term, val uint64) {
+	c := px.ar.Eq(sym, px.ar.Const(sym.w, val))
+	if len(px.decisions) < len(px.prefix) || !px.modelOK {
+		px.assume(c)
+		return
+	}
+	if px.modelOwned != reflect.ValueOf(px.model).Pointer() {
+		nm := make(Model, len(px.model)+64)
+		for k, v := range px.model {
+			nm[k] = v
+		}
+		px.model = nm
+		px.modelOwned = reflect.ValueOf(nm).Pointer()
+	}
+	px.model[sym.name] = val
 	px.assertPC(c)
 }
 
